@@ -265,8 +265,9 @@ theorem c05Msg_parse : Packet.parse c05Msg = .ok
       answers := [{ name := [[119, 119, 119]], cls := .IN, ttl := 60,
                     rdata := .flat 1 [.int 0x01020304], flush := false }],
       nameServers := [], additional := [] } := by
-  have hh : Header.parse c05Msg = .ok { id := 0x1234, opcode := .StandardQuery,
-      rcode := .NoError, flags := 0x0100, opt := none } := by decide +kernel
+  have hh : Header.parse c05Msg =
+      .ok { id := 0x1234, opcode := .StandardQuery, rcode := .NoError, flags := 0x0100,
+            opt := none } := by decide +kernel
   have h1 : Peek.questions c05Msg = .ok 1 := by decide +kernel
   have h2 : Peek.answers c05Msg = .ok 1 := by decide +kernel
   have h3 : Peek.nameServers c05Msg = .ok 0 := by decide +kernel
@@ -317,13 +318,15 @@ theorem c05Slack_records : parseRRs c05Slack 2 12 = .ok
     ([{ name := [], cls := .IN, ttl := 60, rdata := .flat 1 [.int 0x01020304], flush := false },
       { name := [], cls := .IN, ttl := 60, rdata := .flat 1 [.int 0x05060708], flush := false }],
      44) := by
-  have r1 : RR.parse c05Slack 12 = .ok ({ name := [], cls := .IN, ttl := 60,
-      rdata := .flat 1 [.int 0x01020304], flush := false }, 29) := by
+  have r1 : RR.parse c05Slack 12 =
+      .ok ({ name := [], cls := .IN, ttl := 60, rdata := .flat 1 [.int 0x01020304],
+             flush := false }, 29) := by
     unfold RR.parse
     rw [c05Slack_name12]
     decide +kernel
-  have r2 : RR.parse c05Slack 29 = .ok ({ name := [], cls := .IN, ttl := 60,
-      rdata := .flat 1 [.int 0x05060708], flush := false }, 44) := by
+  have r2 : RR.parse c05Slack 29 =
+      .ok ({ name := [], cls := .IN, ttl := 60, rdata := .flat 1 [.int 0x05060708],
+             flush := false }, 44) := by
     unfold RR.parse
     rw [c05Slack_name29]
     decide +kernel
